@@ -1,3 +1,5 @@
+import json
+
 from inspect import getmodule
 from collections import abc
 from pathlib import Path
@@ -170,6 +172,9 @@ class Experiment:
         CobaContext.logger.log("Experiment Started")
 
         if result_file and Path(result_file).exists():
+            self._drop_partial_record(result_file)
+
+        if result_file and Path(result_file).exists():
             CobaContext.logger.log("Restoring Results")
             restored = Result.from_file(result_file)
         else:
@@ -207,6 +212,34 @@ class Experiment:
         del CobaContext.store['experiment_seed']
 
         return Pipes.join(source,decode,result).read()
+
+    def _drop_partial_record(self, result_file:str) -> None:
+        #A run that is interrupted while it writes can leave a final record that is only partly written (for gz
+        #files a truncated gzip member). Appending to such a file would glue the next record onto the partial one
+        #so we rewrite the file without it. A file without a single complete record is the same as no file.
+        lines, partial = [], False
+
+        try:
+            for line in DiskSource(result_file).read(): lines.append(line)
+        except (EOFError,OSError):
+            partial = True
+
+        if lines:
+            try:
+                json.loads(lines[-1])
+            except ValueError:
+                partial = True
+                lines.pop()
+
+        if not partial and ".gz" not in result_file and lines:
+            with open(result_file,'rb') as f:
+                f.seek(-1,2)
+                partial = f.read(1) != b'\n'
+
+        if not lines:
+            Path(result_file).unlink()
+        elif partial:
+            DiskSink(result_file,'w').write(lines)
 
     def _parse_init_args(self,*args,**kwargs) -> Tuple[Sequence[Tuple[Environment,Learner]], Evaluator, Optional[str]]:
         #we know this with 100% certainty
